@@ -317,6 +317,19 @@ class SourceFile:
     def impl_items(self, impl):
         return parse_items(self.src, self.m, impl.body_open + 1, impl.end - 1)
 
+    def scoped(self, path):
+        """view of the items nested in `mod a/fn f/...` (inline modules and function bodies)"""
+        items = self.items
+        for step in [x.strip() for x in path.split("/") if x.strip()]:
+            kind, _, name = step.partition(" ")
+            c = [it for it in items if it.kind == kind and it.name == name.strip() and it.body_open is not None]
+            if len(c) != 1:
+                raise ExtractError("lost-anchor", f"{self.rel}: scope `{step}` matches {len(c)} items")
+            items = parse_items(self.src, self.m, c[0].body_open + 1, c[0].end - 1)
+        v = SourceFile.__new__(SourceFile)
+        v.rel, v.src, v.m, v.items = self.rel, self.src, self.m, items
+        return v
+
 
 # --------------------------------------------------------------------------------------------
 # Transformation rules.  All of them keep the number of lines unchanged so that a verifier
@@ -1092,6 +1105,10 @@ def _process(template_path, gen, variant):
                 raise ExtractError("bad-template", f"{rel_t}:{i+1}: extract without end")
             blk = parse_block(blk_lines)
             sf = SourceFile.get(rel)
+            if parts[1].startswith("in "):
+                # `:: in mod a/fn f ::` selects among the items nested in that inline module / function body
+                sf = sf.scoped(parts[1][3:])
+                parts = [parts[0]] + parts[2:]
             sel = parts[1]
             rest = parts[2:]
             for o in list(rest):
